@@ -56,15 +56,17 @@ RICH_XML = """
 
 
 class Harness:
-  def __init__(self, xml: str, nworld: int, put_kw: Optional[dict] = None):
+  def __init__(self, xml: str, nworld: int, put_kw: Optional[dict] = None, ref_nworld: Optional[int] = None, ref_shift: int = 0):
     import mujoco
 
     import mujoco_warp as mjw
 
     self.mj, self.mjw = mujoco, mjw
-    self.mjm = mujoco.MjModel.from_xml_string(xml)
+    self.mjm = mujoco.MjModel.from_xml_string(xml) if xml.lstrip().startswith("<") else mujoco.MjModel.from_xml_path(xml)
     self.m = mjw.put_model(self.mjm)
     self.nworld = nworld
+    self.ref_nworld = ref_nworld or nworld  # batch size of the reference evaluation (1 = "simulated alone")
+    self.ref_shift = ref_shift  # the reference is read at batch position (w + shift) % ref_nworld
     self.kw = put_kw or {}
     self.d = mjw.make_data(self.mjm, nworld=nworld, **self.kw)
     self.sig = int(mjw.State.INTEGRATION)
@@ -80,14 +82,14 @@ class Harness:
   def set_ctrl(self, d, cs: List[int]):
     import warp as wp
 
-    a = np.stack([self.ctrl_value(c) for c in cs]) if self.mjm.nu else np.zeros((self.nworld, 0), np.float32)
+    a = np.stack([self.ctrl_value(c) for c in cs]) if self.mjm.nu else np.zeros((len(cs), 0), np.float32)
     wp.copy(d.ctrl, wp.array(a, dtype=float))
 
   # ---- observation ----
   def state(self, d) -> np.ndarray:
     import warp as wp
 
-    buf = wp.zeros((self.nworld, self.size), dtype=float)
+    buf = wp.zeros((d.nworld, self.size), dtype=float)
     self.mjw.get_state(self.m, d, buf, self.sig)
     return buf.numpy()
 
@@ -106,16 +108,16 @@ class Harness:
       if t and t[0]["e"] == "key":
         mjd = mujoco.MjData(self.mjm)
         mujoco.mj_resetDataKeyframe(self.mjm, mjd, t[0]["a"])
-        d = mjw.put_data(self.mjm, mjd, nworld=self.nworld, **self.kw)
+        d = mjw.put_data(self.mjm, mjd, nworld=self.ref_nworld, **self.kw)
         t = t[1:]
       else:
-        d = mjw.make_data(self.mjm, nworld=self.nworld, **self.kw)
+        d = mjw.make_data(self.mjm, nworld=self.ref_nworld, **self.kw)
       for ev in t:
         assert ev["e"] == "step"
-        self.set_ctrl(d, [ev["a"]] * self.nworld)
+        self.set_ctrl(d, [ev["a"]] * self.ref_nworld)
         mjw.step(self.m, d)
       self._ref[key] = (self.state(d), d)
-    return self._ref[key][0][w], self._ref[key][1]
+    return self._ref[key][0][(w + self.ref_shift) % self.ref_nworld], self._ref[key][1]
 
   # ---- actions on the real Data ----
   def apply(self, op: dict) -> Optional[str]:
@@ -242,8 +244,9 @@ def replay(ctx, h: Harness, beh: List[dict], pid_key: dict, tol: float = 0.0, ch
         bad = np.nonzero(got != exp)[0]
         comps = sorted({component_of(h, int(i)) for i in bad})
         selected = terms[w] != prev_term[w] or kind in ("reset", "keyarray", "keyscalar") and (len(terms[w]) <= 1)
+        rel = float(np.nanmax(np.abs(got[bad].astype(np.float64) - exp[bad]) / np.maximum(np.abs(exp[bad].astype(np.float64)), 1e-3)))
         ctx.violation(dict(pid_key, api=_api(kind), what="integration state differs from the reference for this world's term",
-                           components=comps, world_changed_by_op=bool(terms[w] != prev_term[w])),
+                           components=comps, world_changed_by_op=bool(terms[w] != prev_term[w]), magnitude="roundoff" if rel < 2e-6 else "large"),
                       f"step {k} op={json.dumps(op)} world {w}: {len(bad)} cells differ, first {int(bad[0])} got {got[bad[0]]} exp {exp[bad[0]]}; term={json.dumps(terms[w])[:200]}", where)
         if kind == "forward" and comps == ["history"]:
           break  # forward() wrote sensor history; the next step re-converges, so keep checking the rest of the behaviour
@@ -256,7 +259,7 @@ def replay(ctx, h: Harness, beh: List[dict], pid_key: dict, tol: float = 0.0, ch
         _, dref = h.ref(terms[w], w)
         if kind == "forward":
           continue  # reference contacts after a bare forward are covered by C37's own comparison
-        exp_con = h.contacts(dref, w)
+        exp_con = h.contacts(dref, (w + h.ref_shift) % h.ref_nworld)
         if con[w] != exp_con:
           ctx.violation(dict(pid_key, api=_api(kind), what="contacts differ from the reference"), f"step {k} world {w}: got {con[w][:3]} exp {exp_con[:3]}", where)
           return False
